@@ -9,6 +9,8 @@ int g_handler;
 int g_may_throw;
 struct vc_snap_t vc_snap;
 size_t gk;
+dig_t g_dig0;
+unsigned char g_byte0;
 dig_t g_cy[VC_MAXN + 2];
 
 /* core_get(): the real one returns the thread's context pointer; here: the harness context. */
